@@ -16,7 +16,6 @@ fn main() {
         // widths beyond the largest finite f32 (128 bits) and f64 (1024 bits) also in the quick tier
         cfg!(&mut run, d64, 16, BigRef);
         cfg!(&mut run, d64, 17, BigRef);
-        cfg!(&mut run, d8, 17, BigRef);
     } else {
         cfg!(&mut run, d64, 17, BigRef);
     }
